@@ -922,8 +922,9 @@ def main(kernels=None, tool="py2lean_wcv"):
         try:
             src = (base.REPO / cfg["file"]).read_text()
             mod = ast.parse(src)
-            fn = next(n for n in ast.walk(mod) if isinstance(n, ast.FunctionDef) and n.name == cfg["func"])
+            fn = [n for n in ast.walk(mod) if isinstance(n, ast.FunctionDef) and n.name == cfg["func"]][-1]
             k = W(cfg, fn)
+            base.K.check_signature(k)
             body = k.run()
             sig = " ".join(f"({n} : {W.LEAN_TY[t]})" for n, t in cfg["params"] if t != "skip")
             ret = cfg["ret"]
